@@ -255,9 +255,9 @@ def sl_entry(oracle, nontrivial, rule_extra, **kw):
 
 PROPS.update({
  'C02': sl_entry('C02', lambda c: 'overlap' in c.tags,
+    "non-trivial = the writer takes at least one step between the first and last shared access of some snapshot() call (tag overlap)",
     gens=lambda seed, th: [['slgen', seed, 40000 if th else 1500]] + ([['slabagen']] if th else []),
     relevant=lambda c: kind(c) in ('sl', 'slaba'),
-    "non-trivial = the writer takes at least one step between the first and last shared access of some snapshot() call (tag overlap)",
     lean_modules=['ClockBound.Properties.C02'],
     technique='Lean 4 invariant proof over all interleavings and all stale-read choices of an operational release/acquire model (writer invariant + reader lemma), parameterised by the observed ordering annotation + schedule-level differential correspondence of the real writer/reader under a deterministic scheduler',
     level_text='Theorems C02.even_generation_is_complete (writer invariant over every history incl. crashes/restarts), accept_consistent (an accepted attempt copied exactly the record as of its first generation message, provided fewer than 32767 updates completed between its two generation reads), no_mixture / no_mixture_general (every returned record is the empty one, the pre-existing one or one passed to write) for every annotation satisfying Ann.adequate. The annotation is observed from the real code on every run; ~1500 seeded schedules (incl. stale reads and crashes) are executed on the real code and replayed by the model token by token.',
@@ -296,6 +296,10 @@ PROPS['C01'] = dict(
     level_note='Partial: coarse-clock tick lag, slewing faster than rho, reboot (monotonic epoch change) and SIGBUS are outside the model; sigma makes the 1 ns resolution of the representation and the double-precision evaluation error explicit.',
     assumptions=["chronyd's report is valid at the instant of its answer: |Rc(tq) - tq| <= |offset| + dispersion + delay/2 (+PHC bound)", "E + phc < 10^12 ns (1000 s) and readings within +-2^31 s"],
 )
+
+from props_threads import PROPS_THREADS, EXTERNAL_THREADS
+PROPS.update(PROPS_THREADS)
+EXTERNAL.update(EXTERNAL_THREADS)
 
 # properties whose theorem files are still being proved are not claimed yet
 for _p in ('C02', 'C03'):
